@@ -215,6 +215,10 @@ func doDump(c *Ctx, what string) {
 		dumpGuardSites(c)
 	case what == "panicops":
 		dumpPanicOps(c)
+	case strings.HasPrefix(what, "kind:"):
+		dumpKINDfn(c, strings.TrimPrefix(what, "kind:"))
+	case what == "kind":
+		dumpKIND(c)
 	case what == "bnd":
 		dumpBND(c)
 	case what == "boxed":
